@@ -201,5 +201,9 @@ def main(tier: str) -> int:
                     targets=["Sim/Case.vo", "Sim/Horizon.vo", "Props/C03.vo"])
 
 
+def replay(path: str) -> int:
+    return c02.replay_generic(path, PID, oracle, prepare)
+
+
 if __name__ == "__main__":
     sys.exit(main(sys.argv[1] if len(sys.argv) > 1 else "quick"))
